@@ -33,6 +33,7 @@ func main() {
 	runArray()
 	runArrayArgProducts(chk.Pick(2, 4))
 	runDirtyOperands()
+	runWide()
 	chk.Finish()
 }
 
@@ -1046,6 +1047,12 @@ func replay(path string) {
 		var c dirtyCase
 		mc.LoadReplay(path, &c)
 		dirtyOne(chk.NewLocal(), c)
+		fmt.Printf("replay %+v\n", c)
+		return
+	} else if k == "wide" {
+		var c wideCase
+		mc.LoadReplay(path, &c)
+		wideOne(chk.NewLocal(), c)
 		fmt.Printf("replay %+v\n", c)
 		return
 	} else if k == "strform" {
